@@ -379,6 +379,17 @@ def model_check(ctx):
     if r["violated"] or r["error"] or r["timeout"]:
         raise Inconclusive("model checking of Group.tla did not pass: " + r["out"][-2000:])
     cov = {"states": r["distinct"], "transitions": r["generated"], "mc_depth": r["depth"]}
+    # the same invariants with the guards the code does not have dropped (a join in flight when Close is called still creates a
+    # Generation; one more heartbeat may be sent after the context is done): this is what recorded traces show
+    with open(os.path.join(d, "MC_run_lax.cfg"), "w") as f:
+        f.write("SPECIFICATION Spec\nCONSTANT Lax <- LaxOn\nCONSTANTS MaxGens = %d\n MaxFns = 2\n MaxFaults = 2\nINVARIANTS %s\nCHECK_DEADLOCK FALSE\n"
+                % (2 if quick else 3, " ".join(MC_INVS)))
+    rl = ctx.tlc(ENGINE, "Group", "MC_run_lax.cfg", workers=16, timeout=3000)
+    if rl["violated"] or rl["error"] or rl["timeout"]:
+        raise Inconclusive("model checking of Group.tla (lax guards) did not pass: " + rl["out"][-2000:])
+    cov["lax"] = {"states": rl["distinct"], "transitions": rl["generated"]}
+    cov["states"] += rl["distinct"]
+    cov["transitions"] += rl["generated"]
     r2 = ctx.tlc(ENGINE, "Group", "MC_live.cfg", workers=16, timeout=1500)
     if r2["violated"] or r2["error"] or r2["timeout"]:
         raise Inconclusive("liveness checking of Group.tla did not pass: " + r2["out"][-2000:])
